@@ -6,7 +6,9 @@ use serde_json::{json, Map, Value};
 use std::path::PathBuf;
 use std::time::Instant;
 
+pub mod c02;
 pub mod c16;
+pub mod common;
 
 pub struct Ctx {
     pub id: String,
@@ -317,6 +319,10 @@ pub fn workload(name: &str, tier: &str) -> Option<Box<dyn Workload>> {
     let quick = tier == "quick";
     match name {
         "c16" => Some(Box::new(c16::Positions::new(quick))),
+        "c02" => Some(Box::new(c02::Wt {
+            n: if quick { 6000 } else { 200_000 },
+            cfg: c02::wt_cfg(),
+        })),
         _ => None,
     }
 }
@@ -324,6 +330,7 @@ pub fn workload(name: &str, tier: &str) -> Option<Box<dyn Workload>> {
 pub fn run_check(ctx: &Ctx) -> i32 {
     match ctx.id.as_str() {
         "C16" => c16::run(ctx),
+        "C02" => c02::run(ctx),
         other => {
             println!("unknown check {other}");
             2
